@@ -10,7 +10,7 @@ from __future__ import annotations
 
 import z3
 
-from contracts.storemodel import (TS, GhostFile, LoadedTraj, Model, TrajRec, install_ghost_os, install_store_models,
+from contracts.storemodel import (FieldSetStub, TS, GhostFile, LoadedTraj, Model, TrajRec, install_ghost_os, install_store_models,
                                   make_cache, make_ncfiles, make_store, register_file, Group, NcDim, DatasetStub)
 from pyvc.models.arrays import SArr
 from pyvc.source import Unsupported
@@ -327,6 +327,25 @@ def location_lemma(h):
     h.summary(TS + '._retrieve_nc_species_values', lambda I_, fi, a, kw: None)      # the parts of this unit have no species dimension
     ncf = I.call(NcFiles, [], dict(path=[], fieldsets={'base'}, dataset=PartList(k, lambda j: ('dataset-of-part', j)), traj_dim=[], traj_var=[], species=None,
                                    groups={'base': PartList(k, mk_group)}, size_index=size_index))
+    # "... including data held in separately merged associated stores": a second field set lives in its own merged store,
+    # cut into the same number of files at *other* places (same total): its cells come from its own files' rows
+    two = h.choice(2) == 1
+    h.ctx.named['with_a_separately_merged_associated_store'] = z3.BoolVal(two)
+    if two:
+        CUM2 = z3.Function('cumulative_size_of_the_associated_store', z3.IntSort(), z3.IntSort())
+        h.assume(z3.ForAll([a_, b_], z3.Implies(z3.And(a_ >= 0, a_ <= b_, b_ < k), CUM2(a_) <= CUM2(b_))))
+        h.assume(z3.And(CUM2(0) >= 0, CUM2(k - 1) == CUM(k - 1)), 'base and associated store hold the same number of trajectories')
+
+        def mk_group2(j):
+            f2 = GhostFile('associated-part', z3.If(j == 0, CUM2(0), CUM2(j) - CUM2(j - 1)), lambda r: ROWJ(100 + j, to_z3(r)))
+            f2.partz = j
+            return Group(f2, ('g_point', 'g_scalar'))
+        ncf2 = I.call(NcFiles, [], dict(path=[], fieldsets={'extra'}, dataset=PartList(k, lambda j: ('dataset-of-associated-part', j)), traj_dim=[], traj_var=[],
+                                        species=None, groups={'extra': PartList(k, mk_group2)}, size_index=SArr(k, lambda q: CUM2(to_z3(q)), kind='list')))
+
+        class TwoFields(FieldSetStub):
+            FIELDS = {'g_point': True, 'g_scalar': False}
+        h.summary('AEIC.storage.field_sets:FieldSet.from_registry', lambda I_, fi, a, kw: TwoFields() if a[-1] == 'extra' else FieldSetStub())
 
     def bisect_sym(I_, seq, x):
         pos = h.ctx.fresh('bisect_pos', z3.IntSort())
@@ -338,6 +357,9 @@ def location_lemma(h):
     h.trust('bisect.bisect_left on a sorted list returns pos with a[pos-1] < x <= a[pos]')
     cache = make_cache(h, I, in_memory=False)
     st = make_store(h, I, 'READ', ncf, cache, next_index=0)
+    if two:
+        st.attrs['_nc_files'] = [ncf, ncf2]
+        st.attrs['_nc'] = {'base': ncf, 'extra': ncf2}
     i = h.int('index')
     h.assume(i >= 0)
     total = CUM(k - 1)
@@ -352,6 +374,20 @@ def location_lemma(h):
         return
     h.ensure('beyond-the-end-loads-nothing', i < total)
     key, val = es[-1]
+    if two and isinstance(val, LoadedTraj):
+        from contracts.storemodel import Cell
+        cells = val.cells
+        for names, cum, what in ((('f_point', 'f_scalar'), CUM, 'base'), (('g_point', 'g_scalar'), CUM2, 'associated')):
+            cs = [cells.get(nm) for nm in names]
+            if not all(isinstance(c, Cell) for c in cs) or any(c.f is not cs[0].f for c in cs):
+                h.fail(f'{what}-fields-come-from-the-row-of-their-own-part-containing-the-index', f'{what} fields not assembled from one row: {cs!r}')
+                return
+            jz = cs[0].f.partz
+            start = z3.If(jz == 0, 0, cum(jz - 1))
+            h.ensure(f'{what}-fields-come-from-the-row-of-their-own-part-containing-the-index',
+                     z3.And(jz >= 0, jz < k, start <= i, i < cum(jz), *[to_z3(c.row) == i - start for c in cs]))
+        h.ensure('cached-under-the-requested-index', to_z3(key) == i)
+        return
     f_row = val.tid() if isinstance(val, LoadedTraj) else None
     if f_row is None:
         h.fail('loads-the-row-of-the-part-containing-the-index', 'not assembled from one row')
